@@ -521,7 +521,8 @@ class Check:
         for ft in engine_faults[:30]:
             print(f"CHECKER-FAULT property={self.prop} {ft}")
 
-        expected = [ob for ob in self.obs if not any(ob in v for v in known.values())]
+        known_ids = {id(o) for v in known.values() for o in v}
+        expected = [ob for ob in self.obs if id(ob) not in known_ids]
         n_ob = len(expected)
         n_dis = sum(1 for ob in expected if ob.status == DISCHARGED)
         if n_ob == 0:
